@@ -656,8 +656,8 @@ func vc24ValidateRes(t *testing.T, err error) []interface{} {
 		a, _ := strconv.ParseUint(g[1], 10, 64)
 		return vL(vSym("too_much"), a)
 	}
-	t.Fatalf("unexpected validateForPayouts error %q", m)
-	return nil
+	// anything else: reported as its own class (never produced by the model => flagged)
+	return vL(vSym("other"))
 }
 
 // ---- real BlockEvaluator.TransactionGroup with fees around the requirement ----
@@ -827,6 +827,11 @@ func vc24EvalPayout(t *testing.T, out *vOut, r *vRand, st map[string]int) {
 		delta, err := Eval(context.Background(), l, blk, true, verify.GetMockedCache(true), nil, nil)
 		vp := vc24ValidateRes(t, err)
 		pf := vL(vSym("na"))
+		var oe *ledgercore.OverspendError
+		if err != nil && errors.As(err, &oe) {
+			// validateForPayouts accepted, then performPayout could not pay
+			vp, pf = vL(vSym("ok")), vL(vSym("overspend"))
+		}
 		if err == nil {
 			s, ok := delta.Accts.GetData(testSinkAddr)
 			p, okp := delta.Accts.GetData(proposer)
